@@ -62,6 +62,13 @@ def gen_defs(tier, seed):
         {"kind": "action", "ext": "xext", "slots": [{"tags": [":ta"], "ptype": "L", "pvals": None, "pfor": [":ta"]},
                                                    {"tags": [":tc"], "ptype": "none", "pvals": None, "pfor": []}],
          "pos": ["N", "S"], "ptype_spelling": "str"},
+        # a free-form tag (no "values" in its definition: any tag not claimed by an earlier definition entry), defined
+        # after a typed tag and usable before it (seed C20j); its tag set in the specification is every other tag of
+        # the vocabulary
+        {"kind": "action", "ext": "", "slots": [{"tags": [":ta"], "ptype": "N", "pvals": None, "pfor": [":ta"]},
+                                                {"tags": [":free", ":bogus"], "ptype": "none", "pvals": None, "pfor": [],
+                                                 "freeform": True}],
+         "pos": ["SL"], "ptype_spelling": "list"},
     ]
     out = canon + defs[:n]
     for k, d in enumerate(out):
@@ -87,6 +94,8 @@ def args_definition(d):
     out = []
     for i, s in enumerate(d["slots"]):
         a = {"name": "slot%d" % (i + 1), "type": ["tag"], "values": list(s["tags"]), "required": False}
+        if s.get("freeform"):
+            del a["values"]
         if s["ptype"] != "none":
             if d["ptype_spelling"] == "str":
                 ty = {"S": "string", "N": "number", "L": "stringlist"}[s["ptype"]]
